@@ -78,7 +78,7 @@ fn certainly_ill_formed(line: &str) -> Option<&'static str> {
 
 pub fn run(tier: Tier) -> i32 {
     let rep = Report::new("C17", tier, "model_checking");
-    rep.set_rule("SCOPE: (forms) utterances x {&[&str], &[String], Vec<String>, &[&str; N], Vec<Label>} x a blank line inserted at every position x time stamps present/absent with alignment off, waveforms compared bit-exactly; (faults) 3 base lines (plain label, label with times, label with fractional times): every single-character deletion, duplication, and substitution/insertion from a 30-symbol alphabet at every position, every prefix truncation, every token deletion/duplication, 14 special time tokens; thorough: all pairs of substitutions on a 40-character window; oracle: never a panic, Err required for certainly ill-formed lines (two tokens, time rejected by f64::from_str, missing phoneme separator or /A:../K: marker); distinct = distinct corrupted line; non-trivial = line differs from the base");
+    rep.set_rule("SCOPE: (forms) utterances x {&[&str], &[String], Vec<String>, &[&str; N], Vec<Label>} x a blank line inserted at every position x time stamps present/absent with alignment off, and time-stamped lines with blank lines at every position with alignment on, waveforms compared bit-exactly; (faults) 3 base lines (plain label, label with times, label with fractional times): every single-character deletion, duplication, and substitution/insertion from a 30-symbol alphabet at every position, every prefix truncation, every token deletion/duplication, 14 special time tokens; thorough: all pairs of substitutions on a 40-character window; oracle: never a panic, Err required for certainly ill-formed lines (two tokens, time rejected by f64::from_str, missing phoneme separator or /A:../K: marker); distinct = distinct corrupted line; non-trivial = line differs from the base");
     rep.assume("single faults (pairs on one window in the thorough tier); lines that are not certainly ill-formed may be accepted or rejected");
     let corpus = labels::corpus();
     let tiny = engine_from_bytes(&GenCfg { nstate: 2, ..GenCfg::default() }.bytes()).expect("generated voice");
@@ -118,6 +118,32 @@ pub fn run(tier: Tier) -> i32 {
                         Ok(w) if bits_eq(&w, &base) => {}
                         Ok(w) => rep.violation("forms-differ", format!("{} ({}) gives a different waveform ({} vs {} samples) on {}", fname, vname, w.len(), base.len(), ename), json!({"engine": ename, "form": fname, "variant": vname, "lines": lines})),
                         Err(er) => rep.violation(if er.starts_with("panic") { "forms-panic" } else { "forms-error" }, format!("{} ({}) fails: {}", fname, vname, er), json!({"engine": ename, "form": fname, "variant": vname, "lines": lines})),
+                    }
+                }
+            }
+            // with alignment ON the time stamps matter, but blank lines still must not: the timed utterance with a
+            // blank line at every position (and in every string form) equals the timed utterance without blanks
+            if !u.is_empty() {
+                let mut ea = (*e).clone();
+                ea.condition.set_phoneme_alignment_flag(true);
+                let timed: Vec<String> = u.iter().enumerate().map(|(i, l)| format!("{} {} {}", i * 1_500_000, (i + 1) * 1_500_000, l)).collect();
+                if let Ok(base_a) = synth(&ea, &timed) {
+                    for pos in 0..=timed.len() {
+                        let mut v = timed.clone();
+                        v.insert(pos, String::new());
+                        if pos % 2 == 0 {
+                            v.insert(pos, String::new());
+                        }
+                        for (fname, r) in forms(&ea, &v) {
+                            rep.eval(1);
+                            form_cases.fetch_add(1, Ordering::Relaxed);
+                            rep.cmp(1);
+                            match r {
+                                Ok(w) if bits_eq(&w, &base_a) => {}
+                                Ok(w) => rep.violation("forms-differ-aligned", format!("{} with blank line(s) at {} and alignment on gives a different waveform ({} vs {} samples) on {}", fname, pos, w.len(), base_a.len(), ename), json!({"engine": ename, "form": fname, "alignment": true, "lines": v})),
+                                Err(er) => rep.violation(if er.starts_with("panic") { "forms-panic" } else { "forms-error" }, format!("{} (aligned, blank at {}) fails: {}", fname, pos, er), json!({"engine": ename, "form": fname, "alignment": true, "lines": v})),
+                            }
+                        }
                     }
                 }
             }
